@@ -43,7 +43,7 @@ CHECKS = {
             "DESIGN.md §4 C07", "E1-BFS"),
     "C08": ("exploration",
             "bounded exhaustive enumeration of (ignore lists x anonymisation x client kind x flags x request) through the real pipeline with the real query log and statistics wired as in package home; every storage and reporting surface read after each request",
-            "13 ignore-list pairs x anonymisation off/on/switched on by API x 5 persistent-client kinds x ignore flags x ANY-refusal, each x 43 requests (name spellings, IPv4/IPv6/4-in-6 sources, with/without ClientID); after every request the memory buffer (API), the flushed file, the API over the file and /control/stats are inspected and cleared. Restart scenarios check that the API hides entries recorded earlier whose name/client is ignored now, including several ClientID clients behind one address.",
+            "13 ignore-list pairs x anonymisation off/on/switched on by API x 5 persistent-client kinds x ignore flags x ANY-refusal, each x 43 requests (name spellings, IPv4/IPv6/4-in-6 sources, with/without ClientID); after every request the memory buffer (API), the flushed file, the API over the file and /control/stats are inspected and cleared. Restart scenarios and a memory-buffer scenario (ignore list changed through the API, client flag set later) check that the API hides entries recorded earlier whose name/client is ignored now, including several ClientID clients behind one address.",
             "ignore-rule matching delegated to urlfilter; a 4-in-6 source is the same client as its IPv4 form; client-flag hiding is judged with anonymisation off (anonymised entries cannot be attributed).",
             "DESIGN.md §4 C08", "E1-stateless"),
     "C09": ("model_checking",
